@@ -321,7 +321,7 @@ def r5_order_offset(ctx, rule="C03.R5") -> None:
         for c in ast.walk(e):
             if isinstance(c, ast.Call) and isinstance(c.func, ast.Attribute) and u(c.func.value) == "self":
                 k, m = hugr.find_method(c.func.attr)
-                if m is not None and _reads_signature(m):
+                if m is not None and _reads_signature(ctx.canon.fn(m, k.module, k)):
                     out.append((c, m))
         return out
 
@@ -336,6 +336,12 @@ def r5_order_offset(ctx, rule="C03.R5") -> None:
             continue
         # a counter may be returned only where the signature helper answered None (not a dataflow operation)
         guarded = any((not taken) and isinstance(t, ast.Compare) and isinstance(t.ops[0], ast.IsNot) and helper_calls(t.left) for t, taken in p.tests)
+        # .. or raised its private "no order port" exception, caught on this path
+        from ..rulekit import raised_privately
+        for nm_ in [x for x in hugr.methods if _reads_signature(ctx.canon.fn(hugr.methods[x], hugr.module, hugr))]:
+            ex_ = raised_privately(hugr.methods[nm_])
+            if any(taken and isinstance(t, ast.Call) and u(t.func) == "except_" and t.args and u(t.args[0]).split(".")[-1] in ex_ for t, taken in p.tests):
+                guarded = True
         if not guarded:
             bad.append((p, cr[0]))
     ok = bool(sig_helpers) and not bad
@@ -371,17 +377,24 @@ def r5_order_offset(ctx, rule="C03.R5") -> None:
     # operations with a static (function / constant) input port: frozen from specification/hugr.md (Call, LoadConstant, LoadFunction);
     # that the port_kind arms of exactly these classes offer a Function/Const kind on an input is C06.R3's business
     want = {"Call", "LoadConst", "LoadFunc"}
-    named_sets = []
+    from ..rulekit import unold_ast
+    named = set()
+    shapes_ok = bool(ins)
     for p in ins:
-        sets = [set(_flat_or(c.args[1])) for c in ast.walk(p.value) if isinstance(c, ast.Call) and u(c.func) == "isinstance" and len(c.args) == 2]
-        # the static input may also be decided by a test on the path (if isinstance(op, ..): return n + 1)
-        if not sets:
-            sets = [set(_flat_or(t.args[1])) for t, taken in p.tests if taken and isinstance(t, ast.Call) and u(t.func) == "isinstance" and len(t.args) == 2
-                    and "+ 1" in p.value_text()]
-        named_sets.append(sets)
-    flat = [s_ for sets in named_sets for s_ in sets if s_ & (want - {"Call"})]
-    named = set().union(*flat) if flat else set()
-    ctx.check(bool(flat) and all(s_ == want for s_ in flat), rule, f"Hugr.{helper.name}: static input owners", file, helper.lineno,
+        val = unold_ast(p.value)
+        in_value = [set(_flat_or(c.args[1])) for c in ast.walk(val) if isinstance(c, ast.Call) and u(c.func) == "isinstance" and len(c.args) == 2]
+        if in_value:
+            # len(sig.input) + int(isinstance(op, A | B | C))
+            named |= set().union(*in_value)
+            continue
+        pos = [set(_flat_or(unold_ast(t).args[1])) for t, taken in p.tests if taken and isinstance(t, ast.Call) and u(t.func) == "isinstance" and len(t.args) == 2]
+        txt = u(val)
+        if txt.endswith("+ 1"):
+            # the most specific class test taken on this path names the owners it counts a static input for
+            named |= pos[-1] if pos else {"?"}
+        elif not (txt.endswith("+ 0") or "+" not in txt):
+            shapes_ok = False
+    ctx.check(shapes_ok and named == want, rule, f"Hugr.{helper.name}: static input owners", file, helper.lineno,
               f"the operations counted as having a static input port ({sorted(named)}) must be exactly those whose port_kind offers a "
               f"Function/Const kind on an input ({sorted(want)})", helper, expected=str(sorted(want)), found=str(sorted(named)))
     # only Call (which is not a DataflowOp) takes its value ports from its instantiation; every DataflowOp from outer_signature()
